@@ -612,7 +612,7 @@ def run(text, style=None, conf=None, props=ALL_PROPS, fix_phase=7, max_passes=5,
             eo = lexer.lex(out_text)
             if [lexer.norm(x) for x in ea if x.kind not in lexer.COMMENT_KINDS] != [lexer.norm(x) for x in eo if x.kind not in lexer.COMMENT_KINDS]:
                 _add("C01", {"rule": "emit", "kind": "code_atoms_changed"}, {})
-            if "C01" in props and not MON.allow_fired and not MON.fail["C01"]:
+            if "C01" in props and not MON.allow_fired and not MON.fail["C01"] and not MON.corrupt:
                 a = [lexer.norm(x) for x in in_atoms if x.kind not in lexer.COMMENT_KINDS]
                 b = [lexer.norm(x) for x in eo if x.kind not in lexer.COMMENT_KINDS]
                 if a != b:
